@@ -176,6 +176,11 @@ class VX:
         def unresolved():
             return ('place', l, raw) if (raw or 1 <= l <= b.argc) else ('local', l)
         if p[:1] == ['*'] and l in self.alias: return self.place(self.alias[l], p[1:], acc, depth)       # *r with r = &mut x
+        for i, x in enumerate(p):
+            if isinstance(x, dict) and 'ix' in x and depth > 0:                  # slice[k] (built-in indexing) ≡ Index::index(slice, k)
+                node = ('call', 'index', '<[T] as std::ops::Index<usize>>::index', [self.place(l, p[:i], acc, depth - 1), self.place(x['ix'], [], acc, depth - 1)], -1)
+                rest = fields_of_place({'l': l, 'p': p[i + 1:]})
+                return ('proj', node, rest) if rest else node
         q = _split(p)
         if q is None or depth <= 0 or 1 <= l <= b.argc: return unresolved()
         if l in acc: return ('acc', l) if not q else unresolved()
@@ -183,9 +188,12 @@ class VX:
         if not ds or self.opaque(l): return unresolved()
         want = q[0]['dc'] if q and 'dc' in q[0] else None
         cands = [d for d in ds if self.may_hold(d, want)] if want else ds
-        if not cands: return unresolved()
+        if not cands: return ('never',)                 # every definition builds another variant: this read is on no path
         if len(cands) == 1: return self.apply(cands[0], q, l, acc, depth - 1)
         nodes = [self.apply(d, q, l, acc | {l}, depth - 1) for d in cands]
+        keep = [i for i, n in enumerate(nodes) if n != ('never',)]
+        if not keep: return ('never',)
+        nodes = [nodes[i] for i in keep]; cands = [cands[i] for i in keep]
         if all(n == nodes[0] for n in nodes) and not has_acc(nodes[0], l): return nodes[0]      # the same value on every path
         return ('phi', l, nodes, [d[1] for d in cands])
 
@@ -197,7 +205,17 @@ class VX:
         src = n[3][0]
         while src[0] == 'call' and ITERISH.search(T.strip_generics_tail(src[2])) and src[3]: src = src[3][0]
         if src[0] != 'local' or src[1] < 0: return None
-        L = src[1]; b = self.b
+        L = src[1]
+        fill = self.vec_fill(L)
+        if fill is None: return None
+        new_bb, pushes = fill
+        op = 'Add' if n[1] == 'sum' else 'Mul'
+        return ('phi', L, [('const', '0f64' if op == 'Add' else '1f64')] + [('bin', op, ('acc', L), self.op(u.args[1])) for u in pushes], [new_bb] + [u.bb for u in pushes])
+
+    def vec_fill(self, L):
+        """a local Vec that starts empty and is only ever changed by push: (block of Vec::new, [push calls]); else None"""
+        b = self.b
+        if L < 0: return None
         ds = b.defs_of(L)
         if len(ds) != 1 or ds[0][0] != 'call' or not re.search(r'Vec::<.*>::(new|with_capacity)$', T.strip_generics_tail(ds[0][2]['r'] or ds[0][2]['f'])): return None
         pushes = []
@@ -208,8 +226,7 @@ class VX:
                 if u.item == 'push' and 'Vec' in u.name and u.arg_local(0) == r: pushes.append(u)
                 else: return None                       # the vector is changed in another way
         if not pushes: return None
-        op = 'Add' if n[1] == 'sum' else 'Mul'
-        return ('phi', L, [('const', '0f64' if op == 'Add' else '1f64')] + [('bin', op, ('acc', L), self.op(u.args[1])) for u in pushes], [ds[0][1]] + [u.bb for u in pushes])
+        return ds[0][1], pushes
 
     def apply(self, d, q, l, acc, depth):
         kind, bi, x = d
@@ -254,6 +271,199 @@ class VX:
         return ('place', l, fs) if fs else ('local', l)
 
 
+# ------------------------------------------------------------------------------------------------
+# opening Option/Result combinators and calls of local closures (an extra, module-local step of the normal form)
+# ------------------------------------------------------------------------------------------------
+from .. import normalize as NZ
+from .. import dataflow as DF
+from ..facts import Body
+
+# combinator ≡ match: every entry is rewritten into the discriminant switch a `match` lowers to, closures spliced in
+#   o.unwrap_or(d)            match o { Some(x) => x,          None => d }
+#   o.unwrap_or_else(f)       match o { Some(x) => x,          None => f() }
+#   o.unwrap_or_default()     match o { Some(x) => x,          None => Default::default() }
+#   o.map_or(d, f)            match o { Some(x) => f(x),       None => d }
+#   o.map_or_else(g, f)       match o { Some(x) => f(x),       None => g() }
+#   o.map(f)                  match o { Some(x) => Some(f(x)), None => None }          (Result: Ok / Err(e) => Err(e))
+#   o.and_then(f)             match o { Some(x) => f(x),       None => None }          (Result: Ok / Err(e) => Err(e))
+#   o.transpose()             match o { Some(Ok(x)) => Ok(Some(x)), Some(Err(e)) => Err(e), None => Ok(None) }
+#   f(a, b) with f a closure  the closure's body at the place of the call  (Fn::call / FnMut::call_mut / FnOnce::call_once)
+COMBINATOR = re.compile(r'^std::(option::Option|result::Result)::<.*>::(unwrap_or|unwrap_or_else|unwrap_or_default|map_or|map_or_else|map|and_then|transpose)$')
+CLOSURE_CALL = re.compile(r' as std::ops::(Fn|FnMut|FnOnce)<.*>>::(call|call_mut|call_once)$')
+OK0 = [{'dc': 'Ok'}, {'f': '0', 'of': 'std::result::Result::Ok'}]
+ERR0 = [{'dc': 'Err'}, {'f': '0', 'of': 'std::result::Result::Err'}]
+
+
+class Opener(NZ.Normalizer):
+    def __init__(self, F):
+        super().__init__(F, None, True)
+
+    def _normalize(self, d):
+        return self.open(super()._normalize(d))
+
+    def open(self, d):
+        if d.get('kind') == 'promoted': return d
+        rw = NZ.Rewriter(d); rw.promoted_of = self._promoted_of
+        for _ in range(40):
+            if not self._open_one(rw): break
+        return rw.d if rw.changed else d
+
+    def _closure_val(self, rw, op):
+        """(closure body, captured operands) behind an operand: the closure value itself, a copy or a reference to it"""
+        for _ in range(8):
+            if op['k'] not in ('copy', 'move') or [x for x in op['pl']['p'] if x != '*']: return None
+            d = rw.single_def(op['pl']['l'])
+            if d is None or d[0] != 'stmt': return None
+            rv = d[2]['rv']
+            if rv['k'] == 'use': op = rv['ops'][0]; continue
+            if rv['k'] == 'ref' and not [x for x in rv['pl']['p'] if x != '*']: op = {'k': 'copy', 'pl': rv['pl']}; continue
+            if rv['k'] == 'agg' and rv['adt'].startswith('closure:'):
+                cd = self.body(rv['adt'][8:])
+                return (cd, rv['ops']) if cd is not None else None
+            return None
+        return None
+
+    def _open_one(self, rw):
+        for bi, b in enumerate(rw.blocks):
+            t = b['term']
+            if b['cleanup'] or t['k'] != 'call' or t.get('opened') or t['t'] < 0: continue
+            nm = T.strip_generics_tail(t['r'] or t['f'])
+            try:
+                cb = self.F.bodies.get(t.get('r') or '') or self.F.bodies.get(t.get('rp') or '')
+                if CLOSURE_CALL.search(nm) or CLOSURE_CALL.search(T.strip_generics_tail(t.get('f') or '')) or (cb is not None and cb.kind == 'closure'):
+                    t['opened'] = True
+                    if self._open_call(rw, bi, t): return True
+                else:
+                    m = COMBINATOR.match(nm)
+                    if m:
+                        t['opened'] = True
+                        if self._open_combinator(rw, bi, t, 'Option' if 'option' in m.group(1) else 'Result', m.group(2)): return True
+            except (NZ._GiveUp, KeyError, IndexError, ValueError):
+                t['opened'] = 'gave-up'
+        return False
+
+    def _call_closure(self, rw, cl, args, dst, cont, span):
+        """entry block of the spliced closure body; result in place dst, continues at cont"""
+        cd, caps = cl
+        if cd['argc'] != 1 + len(args): raise NZ._GiveUp()
+        self.stats['closures_inlined'] += 1
+        return rw.splice(cd, [NZ._const('()', 'env')] + args, dst, cont, span, captures=caps)
+
+    def _open_call(self, rw, bi, t):
+        if len(t['args']) != 2: return False
+        cl = self._closure_val(rw, t['args'][0])
+        tup = t['args'][1]
+        if cl is None or tup['k'] not in ('copy', 'move'): return False
+        n = cl[0]['argc'] - 1
+        d = rw.single_def(tup['pl']['l']) if not tup['pl']['p'] else None
+        if d is not None and d[0] == 'stmt' and d[2]['rv']['k'] == 'agg' and d[2]['rv']['adt'] == 'tuple' and len(d[2]['rv']['ops']) == n:
+            args = list(d[2]['rv']['ops'])
+        else:
+            args = [NZ._mv(tup['pl']['l'], list(tup['pl']['p']) + [{'f': str(i), 'of': 'tuple'}]) for i in range(n)]
+        e = self._call_closure(rw, cl, args, t['dst'], t['t'], t.get('span'))
+        rw.goto(bi, e)
+        return True
+
+    def _open_combinator(self, rw, bi, t, kind, item):
+        B = rw.blocks; span = t.get('span'); line = (span or {}).get('lo', 0)
+        dst = t['dst']; after = t['t']; args = t['args']
+        o = args[0]
+        if o['k'] not in ('copy', 'move'): return False
+        closures = {}
+        need = {'unwrap_or_else': [1], 'map_or': [2], 'map_or_else': [1, 2], 'map': [1], 'and_then': [1]}.get(item, [])
+        for i in need:
+            closures[i] = self._closure_val(rw, args[i])
+            if closures[i] is None: return False              # a fn item / a closure from elsewhere: left as it is
+        if kind == 'Result' and item not in ('map', 'and_then'): return False
+        ol = rw.new_local(rw.locals[o['pl']['l']] if not o['pl']['p'] else '?')
+        B[bi]['st'].append(NZ._use(ol, o, line))
+        dl = rw.new_local('isize'); un = rw.new_block()
+        yes = rw.new_block(); no = rw.new_block()               # Some / Ok ; None / Err
+        B[bi]['st'].append(NZ._discr(dl, NZ._pl(ol), line))
+        if kind == 'Option': B[bi]['term'] = {'k': 'switch', 'd': NZ._mv(dl), 'ts': [[0, no], [1, yes]], 'else': un}
+        else: B[bi]['term'] = {'k': 'switch', 'd': NZ._mv(dl), 'ts': [[0, yes], [1, no]], 'else': un}
+        payload = NZ._mv(ol, NZ.SOME0 if kind == 'Option' else OK0)
+        none_adt = 'std::option::Option::None'; some_adt = 'std::option::Option::Some'
+        def wrapped(blk_from, cl, wrap_adt):
+            r = rw.new_local(cl[0]['locals'][0]); nxt = rw.new_block()
+            rw.goto(blk_from, self._call_closure(rw, cl, [payload], NZ._pl(r), nxt, span))
+            B[nxt]['st'].append(NZ._agg(dst, wrap_adt, [NZ._mv(r)], line=line)); rw.goto(nxt, after)
+        # ---- the Some / Ok side
+        if item in ('unwrap_or', 'unwrap_or_else', 'unwrap_or_default'):
+            B[yes]['st'].append(NZ._use(dst, payload, line)); rw.goto(yes, after)
+        elif item in ('map_or', 'map_or_else'):
+            rw.goto(yes, self._call_closure(rw, closures[2], [payload], dst, after, span))
+        elif item == 'and_then':
+            rw.goto(yes, self._call_closure(rw, closures[1], [payload], dst, after, span))
+        elif item == 'map':
+            wrapped(yes, closures[1], some_adt if kind == 'Option' else 'std::result::Result::Ok')
+        elif item == 'transpose':
+            d2 = rw.new_local('isize'); okb = rw.new_block(); errb = rw.new_block()
+            B[yes]['st'].append(NZ._discr(d2, {'l': ol, 'p': list(NZ.SOME0)}, line))
+            B[yes]['term'] = {'k': 'switch', 'd': NZ._mv(d2), 'ts': [[0, okb], [1, errb]], 'else': un}
+            inner = rw.new_local('?')
+            B[okb]['st'].append(NZ._agg(inner, some_adt, [NZ._mv(ol, NZ.SOME0 + OK0)], line=line))
+            B[okb]['st'].append(NZ._agg(dst, 'std::result::Result::Ok', [NZ._mv(inner)], line=line)); rw.goto(okb, after)
+            B[errb]['st'].append(NZ._agg(dst, 'std::result::Result::Err', [NZ._mv(ol, NZ.SOME0 + ERR0)], line=line)); rw.goto(errb, after)
+        # ---- the None / Err side
+        if kind == 'Result':
+            B[no]['st'].append(NZ._agg(dst, 'std::result::Result::Err', [NZ._mv(ol, ERR0)], line=line)); rw.goto(no, after)
+        elif item in ('unwrap_or', 'map_or'):
+            B[no]['st'].append(NZ._use(dst, args[1], line)); rw.goto(no, after)
+        elif item in ('unwrap_or_else', 'map_or_else'):
+            rw.goto(no, self._call_closure(rw, closures[1], [], dst, after, span))
+        elif item == 'unwrap_or_default':
+            self._default(rw, no, dst, rw.locals[dst['l']] if not dst['p'] else '?', after, span)
+        elif item in ('map', 'and_then'):
+            B[no]['st'].append(NZ._agg(dst, none_adt, [], line=line)); rw.goto(no, after)
+        elif item == 'transpose':
+            inner = rw.new_local('?')
+            B[no]['st'].append(NZ._agg(inner, none_adt, [], line=line))
+            B[no]['st'].append(NZ._agg(dst, 'std::result::Result::Ok', [NZ._mv(inner)], line=line)); rw.goto(no, after)
+        rw.changed = True
+        return True
+
+    def _default(self, rw, blk, dst, ty, after, span):
+        """Default::default() written out for the types that occur as evaluation results: f64 = 0.0, collections = new(), tuples component-wise"""
+        B = rw.blocks; line = (span or {}).get('lo', 0); ty = ty.strip()
+        if ty == 'f64':
+            B[blk]['st'].append(NZ._use(dst, NZ._const('f64', '0f64'), line)); rw.goto(blk, after); return
+        m = re.match(r'^std::collections::(BTreeSet|BTreeMap|HashMap|HashSet)<(.*)>$', ty) or re.match(r'^std::vec::(Vec)<(.*)>$', ty)
+        if m:
+            path = 'std::collections::%s::<%s>' % (m.group(1), m.group(2)) if m.group(1) != 'Vec' else 'std::vec::Vec::<%s>' % m.group(2)
+            B[blk]['term'] = NZ.mk_call(path + '::new', path + '::new', None, path, 'new', [], dst, after, span); return
+        if ty.startswith('(') and ty.endswith(')'):
+            parts = []; depth = 0; cur = ''
+            for ch in ty[1:-1]:
+                if ch in '<(': depth += 1
+                elif ch in '>)': depth -= 1
+                if ch == ',' and depth == 0: parts.append(cur.strip()); cur = ''
+                else: cur += ch
+            if cur.strip(): parts.append(cur.strip())
+            ops = []; cur_b = blk
+            for pty in parts:
+                l = rw.new_local(pty); nxt = rw.new_block()
+                self._default(rw, cur_b, NZ._pl(l), pty, nxt, span)
+                ops.append(NZ._mv(l)); cur_b = nxt
+            B[cur_b]['st'].append(NZ._agg(dst, 'tuple', ops, line=line)); rw.goto(cur_b, after); return
+        B[blk]['term'] = NZ.mk_call('<%s as std::default::Default>::default' % ty, 'std::default::Default::default', 'std::default::Default', ty, 'default', [], dst, after, span)
+
+
+def opened(ctx, body):
+    """the body with Option/Result combinators and calls of its own closures written out (identity if there are none)"""
+    try:
+        d = Opener(ctx.F).open(body.d)
+    except Exception:
+        return body                    # not opened: the rules see the calls and fail closed
+    if d is body.d: return body
+    b2 = Body(d); b2.facts = ctx.F
+    return b2
+
+
+def slicer_for(ctx, body, orig):
+    return ctx.S if body is orig else DF.Slicer(ctx.F, depth=ctx.S.depth)
+
+
 def is_item(e):
     """the current item of a `for` loop: next(it) as Some.0 ..."""
     return e[0] == 'proj' and e[1][0] == 'call' and e[1][1] == 'next' and 'Iterator' in e[1][2]
@@ -265,6 +475,17 @@ def peel(e):
         if e[0] == 'proj' and not is_item(e) and all(T.WRAPPER_OWNER.search(a) for a, f in e[2]): e = e[1]; continue
         if e[0] == 'call' and T.TRANSPARENT.search(T.strip_generics_tail(e[2])) and e[3]: e = e[3][0]; continue
         return e
+
+
+def project(node, fs):
+    """apply field projections to an expression (components of freshly built tuples are selected)"""
+    fs = list(fs)
+    while fs and node[0] == 'agg' and node[1] == 'tuple' and fs[0][0] == 'tuple' and fs[0][1].isdigit() and int(fs[0][1]) < len(node[2]):
+        node = node[2][int(fs[0][1])]; fs = fs[1:]
+    if not fs: return node
+    if node[0] == 'place': return ('place', node[1], node[2] + fs)
+    if node[0] == 'proj': return ('proj', node[1], node[2] + fs)
+    return ('proj', node, fs)
 
 
 def has_acc(n, l):
@@ -316,10 +537,15 @@ DISCR = {'Ok': 0, 'Err': 1, 'None': 0, 'Some': 1, 'Continue': 0, 'Break': 1}
 
 def reach_v(body, starts, stop=()):
     """forward reachability that knows which variant a Result/Option/ControlFlow local holds on the
-    path (built by an aggregate, `from_residual`, anyhow::Ok, Try::branch of a known value) and
-    follows a switch on its discriminant only into the matching arm.  Needed where a `?` inside an
-    inlined helper / spliced closure hands its Err to an outer `?`."""
+    path (built by an aggregate, `from_residual`, anyhow::Ok, Try::branch of a known value; nested:
+    Ok(None), Some(Ok(..))) and follows a switch on its discriminant only into the matching arm.
+    Needed where a `?` inside an inlined helper / spliced closure hands its Err to an outer `?`, and
+    where a combinator chain has been written out as a chain of matches.
+    A known value is (variant, known value of the single payload | None)."""
     seen = set(); out = set(); work = [(s, frozenset()) for s in starts if s not in stop]
+    def known(o, e):
+        if o['k'] in ('copy', 'move') and not o['pl']['p']: return e.get(o['pl']['l'])
+        return None
     while work:
         bi, env = work.pop()
         if (bi, env) in seen: continue
@@ -332,24 +558,31 @@ def reach_v(body, starts, stop=()):
             if d['p']:
                 e.pop(d['l'], None); continue
             val = None
-            if rv['k'] == 'agg' and rv['adt'].split('::')[-1] in DISCR and '::' in rv['adt']: val = rv['adt'].split('::')[-1]
-            elif rv['k'] == 'use' and rv['ops'][0]['k'] in ('copy', 'move') and not rv['ops'][0]['pl']['p']: val = e.get(rv['ops'][0]['pl']['l'])
-            elif rv['k'] == 'discr' and not rv['pl']['p'] and isinstance(e.get(rv['pl']['l']), str): val = ('d', DISCR[e[rv['pl']['l']]])
+            if rv['k'] == 'agg' and rv['adt'].split('::')[-1] in DISCR and '::' in rv['adt']:
+                val = (rv['adt'].split('::')[-1], known(rv['ops'][0], e) if len(rv['ops']) == 1 else None)
+            elif rv['k'] == 'use' and rv['ops'][0]['k'] in ('copy', 'move'):
+                pl = rv['ops'][0]['pl']; src = e.get(pl['l']); pp = [x for x in pl['p'] if x != '*']
+                if not pp: val = src
+                elif isinstance(src, tuple) and src[0] != 'd' and len(pp) == 2 and isinstance(pp[0], dict) and pp[0].get('dc') == src[0] and isinstance(pp[1], dict) and pp[1].get('f') == '0': val = src[1]
+            elif rv['k'] == 'discr':
+                src = e.get(rv['pl']['l']); pp = [x for x in rv['pl']['p'] if x != '*']
+                if isinstance(src, tuple) and src[0] != 'd':
+                    if not pp: val = ('d', DISCR[src[0]])
+                    elif len(pp) == 2 and isinstance(pp[0], dict) and pp[0].get('dc') == src[0] and isinstance(src[1], tuple) and src[1][0] != 'd': val = ('d', DISCR[src[1][0]])
             if val is None: e.pop(d['l'], None)
             else: e[d['l']] = val
         t = blk['term']; succs = body.succ(bi)
         if t['k'] == 'call':
             d = t['dst']; nm = t['r'] or t['f']; tail = T.strip_generics_tail(nm); val = None
-            a0 = t['args'][0] if t['args'] else None
-            src = e.get(a0['pl']['l']) if a0 and a0['k'] in ('copy', 'move') and not a0['pl']['p'] else None
-            if T.FROM_RESIDUAL.search(tail): val = 'None' if nm.lstrip('<').startswith('std::option::Option') else 'Err'
-            elif OK_CTOR_CALL.match(tail): val = 'Ok'
-            elif T.TRY_BRANCH.search(nm) and isinstance(src, str): val = 'Continue' if _vclass(src) == 'ok' else 'Break'
+            src = known(t['args'][0], e) if t['args'] else None
+            if T.FROM_RESIDUAL.search(tail): val = ('None' if nm.lstrip('<').startswith('std::option::Option') else 'Err', None)
+            elif OK_CTOR_CALL.match(tail): val = ('Ok', src)
+            elif T.TRY_BRANCH.search(nm) and isinstance(src, tuple) and src[0] != 'd': val = ('Continue', src[1]) if _vclass(src[0]) == 'ok' else ('Break', None)
             if d['p'] or val is None: e.pop(d['l'], None)
             else: e[d['l']] = val
         elif t['k'] == 'switch' and t['d']['k'] != 'const' and not t['d']['pl']['p']:
             v = e.get(t['d']['pl']['l'])
-            if isinstance(v, tuple):
+            if isinstance(v, tuple) and v[0] == 'd':
                 m = {val: tg for val, tg in t['ts']}
                 succs = [m.get(v[1], t['else'])]
         fe = frozenset(e.items())
@@ -361,6 +594,45 @@ def reach_v(body, starts, stop=()):
 def must_pass_v(body, start, targets, via):
     """templates.must_pass on reach_v: every path from `start` to a block in `targets` passes a block in `via`"""
     return not (reach_v(body, [start], stop=set(via)) & set(targets))
+
+
+def err_index(body, local, default=0):
+    """discriminant of the failure variant of a local: Err = 1 (Result), Break = 1 (ControlFlow), None = 0 (Option)"""
+    ty = body.locals[local].replace('&', '').strip() if 0 <= local < len(body.locals) else ''
+    if ty.startswith('std::result::Result') or ty.startswith('std::ops::ControlFlow'): return 1
+    if ty.startswith('std::option::Option'): return 0
+    return default
+
+
+def _wrapped_flow(body, w, err_ix, depth):
+    """a fallible value sits unchanged in the payload of wrapper local w (Some(r) / Ok(r)): findings like errflow for the payload"""
+    if depth > 6: return [('bad', 'wrapper chain too deep')]
+    oks = body.strict_ok_exits(); res = []
+    for kind, bi, y in body.uses.get(w, ()):
+        if kind != 'stmt': res.append(('bad', 'wrapped result passed on')); continue
+        rv = y['rv']
+        pl = rv['pl'] if 'pl' in rv else (rv['ops'][0]['pl'] if rv.get('ops') and rv['ops'][0]['k'] in ('copy', 'move') else None)
+        if pl is None or pl['l'] != w: res.append(('bad', 'wrapped result used otherwise')); continue
+        pp = [e for e in pl['p'] if e != '*']
+        inner = len(pp) == 2 and isinstance(pp[0], dict) and pp[0].get('dc') in ('Some', 'Ok', 'Continue')
+        if rv['k'] == 'discr':
+            if not pp: continue                                         # test of the wrapper itself
+            if inner:
+                for k3, b3, sw in body.uses.get(y['dst']['l'], ()):
+                    if k3 != 'switch': continue
+                    m = {v: t for v, t in sw['ts']}
+                    if reach_v(body, [m.get(err_ix, sw['else'])]) & oks: res.append(('bad', 'None/Err side of match reaches an Ok-exit'))
+                    else: res.append(('ok', 'match on the wrapped value: None/Err side reaches only Err-exits'))
+                continue
+            res.append(('bad', 'wrapped result taken apart')); continue
+        if rv['k'] == 'use' and not y['dst']['p']:
+            if not pp: res += _wrapped_flow(body, y['dst']['l'], err_ix, depth + 1); continue       # the wrapper moves on
+            if inner: res += errflow_v(body, y['dst']['l'], depth + 1, err_ix); continue               # the payload is taken out whole
+            if len(pp) > 2 and isinstance(pp[0], dict) and pp[0].get('dc') in ('Some', 'Ok', 'Continue'): continue    # a part of the payload, after a test
+        if rv['k'] == 'agg' and len(pp) > 2: continue                    # re-wrapping of a part of the payload, after a test
+        res.append(('bad', 'wrapped result used otherwise'))
+    if not res: res.append(('bad', 'wrapped result dropped'))
+    return res
 
 
 def errflow_v(body, local, depth=0, none_variant=0):
@@ -390,7 +662,7 @@ def errflow_v(body, local, depth=0, none_variant=0):
                 for k3, b3, sw in body.uses.get(x['dst']['l'], ()):
                     if k3 != 'switch': continue
                     m = {v: t for v, t in sw['ts']}
-                    if reach_v(body, [m.get(none_variant, sw['else'])]) & oks: res.append(('bad', 'None/Err side of match reaches an Ok-exit'))
+                    if reach_v(body, [m.get(err_index(body, local, none_variant), sw['else'])]) & oks: res.append(('bad', 'None/Err side of match reaches an Ok-exit'))
                     else: res.append(('ok', 'match: None/Err side reaches only Err-exits'))
             elif rv['k'] == 'use' and x['dst']['p'] == []:
                 o = rv['ops'][0]
@@ -399,6 +671,9 @@ def errflow_v(body, local, depth=0, none_variant=0):
                     else: res += errflow_v(body, x['dst']['l'], depth + 1, none_variant)
             elif rv['k'] == 'ref':
                 res += errflow_v(body, x['dst']['l'], depth + 1, none_variant)
+            elif rv['k'] == 'agg' and rv['adt'].split('::')[-1] in ('Some', 'Ok', 'Continue') and len(rv['ops']) == 1 and not x['dst']['p']:
+                # wrapped as it is (`Some(r)` of `opt.map(|x| fallible(x))`): what happens to the payload when it is looked at again
+                res += _wrapped_flow(body, x['dst']['l'], err_index(body, local, none_variant), depth + 1)
     if not res: res.append(('bad', 'no recognised consumer'))
     return res
 
@@ -430,6 +705,9 @@ def components(n):
          ('src', expr)            the elements of a place, through ITERISH views only
          ('zip', [components])    itertools::multizip((a, b, ..)) ≡ izip!(a, b, ..) ≡ a.zip(b) (nested: ((a, b), c))
          ('index',)               the counter of enumerate()
+         ('take', comp, n)        it.take(n): the same elements, cut at n (leaf ('bound', n) for the validity check)
+         ('range', lo, hi)        the counter of `lo..hi` (an index loop; see Kernel.msg_path: list[k] is the element of list in that loop)
+         ('vec', local, push)     (added by Kernel.comp_of) the elements of a local Vec that is filled by one push per iteration of another loop
          ('other', expr)          anything else (filtered / cloned / re-ordered / derived collection)"""
     while True:
         if n[0] == 'call':
@@ -437,21 +715,25 @@ def components(n):
             if nm.endswith('multizip') and n[3] and n[3][0][0] == 'agg' and n[3][0][1] == 'tuple': return ('zip', [components(x) for x in n[3][0][2]])
             if n[1] == 'zip' and 'Iterator' in n[2] and len(n[3]) == 2: return ('zip', [components(n[3][0]), components(n[3][1])])
             if n[1] == 'enumerate' and 'Iterator' in n[2] and n[3]: return ('zip', [('index',), components(n[3][0])])
+            if n[1] == 'take' and 'Iterator' in n[2] and len(n[3]) == 2: return ('take', components(n[3][0]), n[3][1])      # valid only up to a length of the message's own lists (loop_problems)
             if ITERISH.search(nm) and n[3]: n = n[3][0]; continue
             return ('other', n)
         if n[0] == 'place' or is_item(n): return ('src', n)
+        if n[0] == 'agg' and n[1].endswith('ops::Range') and len(n[2]) == 2: return ('range', n[2][0], n[2][1])
         return ('other', n)
 
 
 def comp_leaves(c):
     if c[0] == 'zip':
         for x in c[1]: yield from comp_leaves(x)
+    elif c[0] == 'take':
+        yield from comp_leaves(c[1]); yield ('bound', c[2])
     else: yield c
 
 
 class Kernel:
     def __init__(self, ctx, body):
-        self.ctx = ctx; self.body = body; self.vx = VX(body)
+        self.ctx = ctx; self.body = body; self.vx = VX(body); self.spec = None; self.oks = None      # oks: the Ok-exits that count as "the" exit (shortcut exits are validated separately)
         self.for_loops = T.for_loops(body)                       # (next_call, header, some_bb, none_bb, blocks)
         self.by_next = {lo[0].bb: lo for lo in self.for_loops}
         self.by_header = {lo[1]: lo for lo in self.for_loops}
@@ -464,33 +746,177 @@ class Kernel:
 
     def comp_of(self, lo):
         k = lo[0].bb
-        if k not in self._comp: self._comp[k] = components(self.vx.op(lo[0].args[0]))
+        if k not in self._comp:
+            def vec_leaves(c):
+                if c[0] == 'zip': return ('zip', [vec_leaves(x) for x in c[1]])
+                if c[0] == 'take': return ('take', vec_leaves(c[1]), c[2])
+                if c[0] == 'other' and c[1][0] == 'local':
+                    fill = self.vx.vec_fill(c[1][1])
+                    if fill is not None and len(fill[1]) == 1: return ('vec', c[1][1], fill[1][0], fill[0])
+                return c
+            self._comp[k] = vec_leaves(components(self.vx.op(lo[0].args[0])))
         return self._comp[k]
 
+    def navigate(self, n):
+        """for a loop item `next(..) as Some.0 .f..`: (leaf component it is an element of, remaining field path, next-call block); None if n is no loop item"""
+        if n[0] == 'call' and n[1] == 'next' and 'Iterator' in n[2]: n = ('proj', n, [('std::option::Option::Some', '0')])
+        if not is_item(n): return None
+        fs = list(n[2])
+        if not fs or not fs[0][0].endswith('Option::Some'): return None
+        fs = fs[1:]
+        lo = self.by_next.get(n[1][4])
+        if lo is None: return None
+        c = self.comp_of(lo)
+        while c[0] in ('zip', 'take'):
+            if c[0] == 'take': c = c[1]; continue
+            if not fs or fs[0][0] != 'tuple' or not fs[0][1].isdigit() or int(fs[0][1]) >= len(c[1]): return None
+            c = c[1][int(fs[0][1])]; fs = fs[1:]
+        return c, fs, n[1][4]
+
+    def nest(self, bb):
+        """next-call blocks of the `for` loops around a block, outermost first"""
+        ls = [lo for lo in self.for_loops if bb in lo[4]]
+        return [lo[0].bb for lo in sorted(ls, key=lambda lo: -len(lo[4]))]
+
+    def canon(self, nb, depth=0):
+        """loop fission: a loop over a Vec that another loop filled with one push per iteration runs in step with that loop
+        (k-th element = value pushed in the k-th iteration).  Both are the same loop for "which term is this" questions."""
+        lo = self.by_next.get(nb)
+        if lo is None or depth > 3: return nb
+        leaves = list(comp_leaves(self.comp_of(lo)))
+        vecs = [l for l in leaves if l[0] == 'vec']
+        if not vecs: return nb
+        fills = {(self.nest(v[2].bb) or [None])[-1] for v in vecs}
+        if len(fills) != 1 or None in fills: return nb
+        fill = list(fills)[0]
+        # other lists zipped with the vector must be the ones the filling loop runs over
+        flo = self.by_next[fill]
+        fsrc = [self.msg_path(l[1]) for l in comp_leaves(self.comp_of(flo)) if l[0] == 'src']
+        for l in leaves:
+            if l[0] == 'src' and (self.msg_path(l[1]) is None or self.msg_path(l[1]) not in fsrc): return nb
+            if l[0] not in ('src', 'vec', 'index', 'bound'): return nb
+        return self.canon(fill, depth + 1)
+
+    def vec_problems(self, leaf):
+        """why the elements of a ('vec', ..) leaf are NOT one value per iteration of the filling loop"""
+        V, push, new_bb = leaf[1], leaf[2], leaf[3]
+        chain = self.nest(push.bb)
+        if not chain: return ['the vector is not filled in a loop']
+        why = self.every_iteration(chain, [push.bb])
+        if self.nest(new_bb) != chain[:-1]: why.append('the vector is not created right before the loop that fills it')
+        return why
+
+    def counter_loop(self, idx):
+        """the loop whose counter `idx` is: the item of `0..n`, or the index of enumerate(); next-call block or None"""
+        i = peel(idx)
+        if i[0] == 'cast': i = peel(i[2])
+        r = self.navigate(i)
+        if r is None: return None
+        c, fs, nb = r
+        return nb if c[0] in ('range', 'index') and not fs else None
+
+    def len_lists(self, n):
+        """message lists whose common prefix `n` counts: len(list) or min(.., ..) of such; None if n is anything else"""
+        n = peel(n)
+        if n[0] == 'call' and n[1] == 'min' and len(n[3]) == 2:
+            a = self.len_lists(n[3][0]); b = self.len_lists(n[3][1])
+            return None if a is None or b is None else a + b
+        if n[0] == 'call' and n[1] == 'len' and len(n[3]) == 1:
+            mp = self.msg_path(n[3][0])
+            return [mp[0]] if mp is not None else None
+        return None
+
     def msg_path(self, node, depth=0):
-        """where in the message a value is read: (field path from self, [next-call blocks of the loops crossed]); None = not (only) from the message"""
+        """where in the message a value is read: (field path from self, [next-call blocks of the loops crossed]); None = not (only) from the message.
+           element idioms:  item of a loop over the list (through views / zips)  ≡  list[k] with k the counter of `0..n` or of enumerate()
+                            ≡  item of a loop over a Vec into which the value was pushed by the loop over the list (loop fission)"""
         n = peel(node)
         if n[0] == 'call' and n[1] == 'next' and 'Iterator' in n[2]: n = ('proj', n, [('std::option::Option::Some', '0')])
         if n[0] == 'place' and n[1] == 1: return list(n[2]), []
-        if is_item(n) and depth < 4:
-            fs = list(n[2])
-            if not fs or not fs[0][0].endswith('Option::Some'): return None
-            fs = fs[1:]
-            lo = self.by_next.get(n[1][4])
-            if lo is None: return None
-            c = self.comp_of(lo)
-            while c[0] == 'zip':
-                if not fs or fs[0][0] != 'tuple' or not fs[0][1].isdigit() or int(fs[0][1]) >= len(c[1]): return None
-                c = c[1][int(fs[0][1])]; fs = fs[1:]
+        if depth >= 6: return None
+        rest = []
+        if n[0] == 'proj' and n[1][0] == 'call' and n[1][1] == 'index': rest = list(n[2]); n = n[1]
+        if n[0] == 'call' and n[1] == 'index' and 'Index<usize>' in n[2] and len(n[3]) == 2:
+            base = self.msg_path(n[3][0], depth + 1); ctr = self.counter_loop(n[3][1])
+            if base is None or ctr is None: return None
+            return base[0] + rest, base[1] + [ctr]
+        r = self.navigate(n)
+        if r is not None:
+            c, fs, nb = r
+            if c[0] == 'vec': return self.msg_path(project(self.vx.op(c[2].args[1]), fs), depth + 1)
             if c[0] != 'src': return None
             base = self.msg_path(c[1], depth + 1)
             if base is None: return None
-            return base[0] + fs, base[1] + [n[1][4]]
+            return base[0] + fs, base[1] + [nb]
         return None
+
+    def vec_element(self, n):
+        """the value pushed for an item of a loop over a filled Vec (see canon); None if n is not such an item"""
+        r = self.navigate(n)
+        if r is None or r[0][0] != 'vec': return None
+        return project(self.vx.op(r[0][2].args[1]), r[1])
+
+    def inline_vecs(self, n, depth=0):
+        """replace items of loops over filled Vecs by the pushed values, everywhere in an expression"""
+        if not isinstance(n, tuple) or not n or not isinstance(n[0], str) or depth > 12: return n
+        if n[0] != 'phi':
+            r = self.vec_element(n)
+            if r is not None: return self.inline_vecs(r, depth + 1)
+        out = []
+        for x in n:
+            if isinstance(x, tuple) and x and isinstance(x[0], str): out.append(self.inline_vecs(x, depth + 1))
+            elif isinstance(x, list): out.append([self.inline_vecs(y, depth + 1) if isinstance(y, tuple) and y and isinstance(y[0], str) else y for y in x])
+            else: out.append(x)
+        return tuple(out)
+
+    def loop_lists(self, nb, depth=0):
+        """field paths of the message lists a loop runs over (any of them empty => no iteration)"""
+        lo = self.by_next.get(nb); out = []
+        if lo is None or depth > 3: return out
+        for leaf in comp_leaves(self.comp_of(lo)):
+            if leaf[0] == 'src':
+                mp = self.msg_path(leaf[1])
+                if mp is not None: out.append(mp[0])
+            elif leaf[0] == 'range': out += self.len_lists(leaf[2]) or []
+            elif leaf[0] == 'bound': out += self.len_lists(leaf[1]) or []
+            elif leaf[0] == 'vec':
+                for nb2 in self.nest(leaf[2].bb)[-1:]: out += self.loop_lists(nb2, depth + 1)
+        return out
+
+    def loop_problems(self, nb):
+        """why the loop with next-call block nb does NOT run over the message's own lists, element by element"""
+        lo = self.by_next.get(nb)
+        if lo is None: return ['loop not found']
+        out = []
+        for leaf in comp_leaves(self.comp_of(lo)):
+            k = leaf[0]
+            if k == 'index': continue
+            if k == 'src':
+                if self.msg_path(leaf[1]) is None: out.append('a loop iterates a derived collection instead of the message\'s own list (%s)' % T.expr_str(leaf[1]))
+            elif k == 'range':
+                # index loop: from 0 to the length of (the common prefix of) the kernel's own lists
+                lists = self.len_lists(leaf[2])
+                own = [p[:i] for p in [self.spec['coef']] + self.spec['ids'] for i in range(1, len(p) + 1)]
+                if peel(leaf[1]) != ('const', '0_usize'): out.append('an index loop does not start at 0 (%s)' % T.expr_str(leaf[1]))
+                if lists is None or not all(any(same_path(l, o) for o in own) for l in lists):
+                    out.append('an index loop does not run to the length of the message\'s own lists (%s)' % T.expr_str(leaf[2]))
+            elif k == 'bound':
+                lists = self.len_lists(leaf[1])
+                own = [p[:i] for p in [self.spec['coef']] + self.spec['ids'] for i in range(1, len(p) + 1)]
+                if lists is None or not all(any(same_path(l, o) for o in own) for l in lists):
+                    out.append('the loop is cut by take(%s), which is not a length of the message\'s own lists' % T.expr_str(leaf[1]))
+            elif k == 'vec':
+                w = self.vec_problems(leaf)
+                if w: out.append('a loop runs over a vector that does not hold one value per term: %s' % '; '.join(w))
+                else:
+                    for nb2 in self.nest(leaf[2].bb)[-1:]: out += self.loop_problems(nb2) if nb2 != nb else []
+            else:
+                out.append('a loop iterates a derived collection instead of the message\'s own list (%s)' % T.expr_str(leaf[1]))
+        return out
 
     def every_iteration(self, chain, sites):
         """reasons why `sites` (blocks) are NOT passed once per element of the nested lists crossed by the loops `chain` (outermost first)"""
-        body = self.body; oks = body.strict_ok_exits(); why = []
+        body = self.body; oks = self.oks if self.oks is not None else body.strict_ok_exits(); why = []
         los = [self.by_next.get(nb) for nb in chain]
         if any(lo is None for lo in los): return ['loop not found']
         if not los:
@@ -516,9 +942,17 @@ def live_closures(ctx, body, depth=0):
     """closure bodies whose value is still used in `body` (a spliced closure leaves a dead aggregate behind), transitively.
     Not ctx.F.closures_of: the normal form also drops closures from that list which it looked at but then left in place."""
     out = []
+    def live(l, seen):
+        # used by a call / switch / the result, directly or through copies and references (a spliced call leaves dead `&closure` temporaries)
+        if l in seen: return False
+        seen.add(l)
+        for kind, bi, u in body.uses.get(l, ()):
+            if kind != 'stmt' or u['dst']['p'] or u['dst']['l'] == 0 or u['rv']['k'] not in ('use', 'ref'): return True
+            if live(u['dst']['l'], seen): return True
+        return False
     for bi, st, path in body.closures_created():
         cb = ctx.F.bodies.get(path)
-        if cb is None or not body.uses.get(st['dst']['l']) or depth > 3: continue
+        if cb is None or st['dst']['p'] or not live(st['dst']['l'], set()) or depth > 3: continue
         out.append(cb); out += live_closures(ctx, cb, depth + 1)
     return out
 
@@ -561,9 +995,10 @@ def returned_pair(body):
 # ------------------------------------------------------------------------------------------------
 def kernel_rules(ctx, short):
     spec = KERNELS[short]; ty = spec['ty']; R = 'C01'
-    body = ctx.method(R + '.anchor/%s::evaluate' % short, ty, 'evaluate', trait='Evaluate')
-    if body is None: return
-    K = Kernel(ctx, body); vx = K.vx
+    orig = ctx.method(R + '.anchor/%s::evaluate' % short, ty, 'evaluate', trait='Evaluate')
+    if orig is None: return
+    body = opened(ctx, orig)
+    K = Kernel(ctx, body); vx = K.vx; K.S = slicer_for(ctx, body, orig); K.spec = spec
     fn = body.name
 
     # ---- C01.lookup: a missing variable is an error, for every lookup in the given state
@@ -582,13 +1017,43 @@ def kernel_rules(ctx, short):
                [('a state lookup sits in closure %s whose use is not recognised' % cb.name.split('::')[-1], cb.site(c.bb)) for cb, c in hidden])
 
     pairs = returned_pair(body)
-    ctx.check(len(pairs) == 1, R + '.fields/%s/result' % short, 'T-CARRY', fn, 'expected one Ok((value, ids)) exit, found %d' % len(pairs), body.site())
-    if len(pairs) != 1:
-        visible_rule(); return
-    exit_bb, vop, sop = pairs[0]
+    # guard turned into an early return: `if list.is_empty() { return Ok((start value, start set)) }` is the main exit after zero iterations.
+    # Exits inside the true-side of an is_empty() test are candidates; they are validated once the term loop is known (shortcut_problems).
+    guarded = {}
+    for c in body.calls:
+        if c.item == 'is_empty' and len(c.args) == 1 and re.search(r'(Vec::<.*>|\[.*\]>?)::is_empty$', T.strip_generics_tail(c.name)):
+            for g in T.guards_from_call(body, c):
+                if g.true_bb is None: continue
+                for pr in pairs:
+                    if pr[0] in body.edge_region(g.switch_bb, g.true_bb): guarded.setdefault(pr[0], []).append(c)
+    # `list.len() == 0` (true side) / `list.len() != 0`, `list.len() > 0` (false side) are the same test
+    for c in body.calls:
+        if c.item == 'len' and len(c.args) == 1 and re.search(r'(Vec::<.*>|\[.*\]>?)::len$', T.strip_generics_tail(c.name)) and not c.dst['p']:
+            for kind, bi, st in body.uses.get(c.dst['l'], ()):
+                if kind != 'stmt' or st['rv']['k'] != 'bin' or st['rv']['op'] not in ('Eq', 'Ne', 'Gt') or st['dst']['p']: continue
+                o1 = st['rv']['ops'][1]
+                if o1['k'] != 'const' or not o1['v'].startswith('0_usize'): continue
+                for g in T.guards_from_local(body, st['dst']['l'], bi):
+                    tgt = g.true_bb if st['rv']['op'] == 'Eq' else g.false_bb
+                    if tgt is None: continue
+                    for pr in pairs:
+                        if pr[0] in body.edge_region(g.switch_bb, tgt): guarded.setdefault(pr[0], []).append(c)
+    mains = [pr for pr in pairs if pr[0] not in guarded]
+    shortcuts = [pr for pr in pairs if pr[0] in guarded] if len(mains) == 1 else []
+    done = []
+    def result_rule(problems=()):
+        if done: return
+        done.append(1)
+        probs = list(problems)
+        if len(mains) != 1: probs.append(('expected one Ok((value, ids)) exit, found %d' % len(pairs), None))
+        decide(ctx, R + '.fields/%s/result' % short, 'T-CARRY', body, probs)
+    if len(mains) != 1:
+        result_rule(); visible_rule(); return
+    exit_bb, vop, sop = mains[0]
+    K.oks = {exit_bb}
 
     # ---- the value: init + Σ term
-    value = vx.op(vop)
+    value = K.inline_vecs(vx.op(vop))              # loop fission: elements of a filled Vec are the values pushed
     # `sum = init; .. ; Ok((sum, ids))`  ≡  `sum = 0.0; .. ; Ok((sum + init, ids))`: summands added at the exit count as part of the start value
     leaves = T.flatten(value, 'Add')
     recs = [(x, recurrence(x, vx)) for x in leaves]
@@ -600,20 +1065,27 @@ def kernel_rules(ctx, short):
         if un and not any(r is not None for x, r in recs):
             # the sum is formed inside an iterator consumer that the normal form leaves closed (e.g. `.map(..).sum::<Result<f64>>()`):
             # the precise rules cannot be decided; weaker necessary conditions of the same clauses are
-            weak_kernel(ctx, K, short, spec, vop, sop, un[0], hidden); return
+            result_rule([('an early exit beside a sum that the rules cannot open', body.site(e)) for e, v, st in shortcuts]); weak_kernel(ctx, K, short, spec, vop, sop, un[0], hidden); return
     visible_rule()
     ups = rec[2] if rec else []
     excl = all(u2[2] not in body.reach(body.succ(u1[2]), stop={K.innermost(u1[2])}) for u1 in ups for u2 in ups if u1 is not u2 and K.innermost(u1[2]) is not None)
     sum_ok = bool(ups) and all(op == 'Add' for op, x, bi in ups) and excl
     ctx.check(sum_ok, R + '.fields/%s/sum-is-added' % short, 'T-BRANCHFX', fn,
               'the result is not accumulated by `sum += term` once per term (found %s%s)' % ([op for op, x, bi in ups] if rec else T.expr_str(peel(value)), '' if excl else ', several updates on one path'), body.site())
-    if not rec: return
+    if not rec:
+        result_rule([('an early exit beside a value that is not accumulated', body.site(e)) for e, v, st in shortcuts]); return
     acc_l, inits, ups = rec
     heads = {K.innermost(bi) for op, x, bi in ups}
     Lp = K.by_header.get(list(heads)[0]) if len(heads) == 1 else None
     ctx.check(Lp is not None, R + '.every-term/%s/loop' % short, 'T-LOOPMUST', fn, 'the updates of the sum are not in one `for`-like loop over the terms (loop headers %s)' % sorted(heads, key=str), body.site(ups[0][2]))
-    if Lp is None: return
+    if Lp is None:
+        result_rule([('an early exit, but the term loop is not recognised', body.site(e)) for e, v, st in shortcuts]); return
     term_loop = Lp[0].bb
+    result_rule([(w, body.site(e)) for e, v, st in shortcuts for w in shortcut_problems(K, (e, v, st), guarded[e], term_loop, rec, sop)])
+    tl = K.canon(term_loop)                # after loop fission the loop that computed the terms stands for the loop that adds them
+    def loop_at(bb):
+        h = K.innermost(bb)
+        return K.canon(K.by_header[h][0].bb) if h in K.by_header else None
 
     # ---- every term: the term loop iterates the message's own lists, completely; the update lies on every path
     why = K.every_iteration([term_loop], [bi for op, x, bi in ups])
@@ -647,16 +1119,18 @@ def kernel_rules(ctx, short):
         if mp is None: continue
         loops_used |= set(mp[1])
         # the factor enters the product in the loop that yields its id (directly in the term, or through a `p *= x` update)
-        site_loop = K.innermost(via if via is not None else ubi)
-        key_loop = K.by_next[mp[1][-1]][1] if mp[1] and mp[1][-1] in K.by_next else None
-        if mp[1][:1] != [term_loop] or site_loop != key_loop:
+        site_loop = loop_at(via if via is not None else ubi)
+        key_loop = K.canon(mp[1][-1]) if mp[1] else None
+        if [K.canon(x) for x in mp[1][:1]] != [tl] or site_loop != key_loop:
             once.append(('a looked-up value is not multiplied in exactly once per id of the term (update in loop bb%s, id from loop bb%s)' % (site_loop, key_loop), body.site(via if via is not None else ubi)))
         elif via is not None:
-            w = K.every_iteration(mp[1], [via])
+            chain = K.nest(via); loops_used |= set(chain)          # the loops the `*=` sits in (after fission: the loop over the collected factors)
+            if [K.canon(x) for x in chain] != [K.canon(x) for x in mp[1]]: w = ['the update is not nested in the loops that yield the id']
+            else: w = K.every_iteration(chain, [via])
             if w: once.append(('the factor of an id can be skipped: %s' % '; '.join(w), body.site(via)))
     for f, via, ubi, mp in coefs:
         loops_used |= set(mp[1])
-        if mp[1] != [term_loop] or via is not None and K.innermost(via) != Lp[1]:
+        if [K.canon(x) for x in mp[1]] != [tl] or via is not None and loop_at(via) != tl:
             once.append(('the coefficient is not the one of the current term', body.site(ubi)))
     want = sorted(p[-1][1] for p in spec['ids'])
     ctx.check(sorted(x for x in keys if x) == want * nups and None not in keys, R + '.fields/%s/lookup-keys' % short, 'T-CARRY', fn, 'values are looked up under %s, expected %s' % (keys, want), body.site(ups[0][2]))
@@ -664,11 +1138,7 @@ def kernel_rules(ctx, short):
     # the loops that yield coefficient and ids run over the message's own lists (no filtered, de-duplicated or re-ordered copy)
     probs = []
     for nb in sorted(loops_used):
-        lo = K.by_next.get(nb)
-        for leaf in comp_leaves(K.comp_of(lo)) if lo else [('other', ('local', -1))]:
-            if leaf[0] == 'index': continue
-            if leaf[0] != 'src' or K.msg_path(leaf[1]) is None:
-                probs.append(('a loop iterates a derived collection instead of the message\'s own list (%s)' % T.expr_str(leaf[1]), body.site(nb)))
+        probs += [(w, body.site(nb)) for w in K.loop_problems(nb)]
     # an id loop that is not recognised at all (key does not resolve): report the loop of the lookup
     for f, via, ubi in looks:
         if K.msg_path(f[3][1]) is None:
@@ -706,7 +1176,7 @@ def weak_kernel(ctx, K, short, spec, vop, sop, consumer, hidden):
         for n in names: ctx.undecided('%s.%s/%s/%s' % (R, fam, short, n), 'T-LOOPMUST' if fam == 'every-term' else 'T-CARRY', body.site(consumer[4]), why)
     def weak(fam, name, cond, detail, template='T-CARRY'):
         ctx.check(bool(cond), '%s.%s/%s/%s~weak' % (R, fam, short, name), template, fn, detail, body.site(consumer[4]))
-    sv = ctx.S.slice_operand(body, vop); ss = ctx.S.slice_operand(body, sop)
+    sv = K.S.slice_operand(body, vop); ss = K.S.slice_operand(body, sop)
     init_field = {'constant': ('v1::Linear', 'constant'), 'linear-part': ('v1::Quadratic', 'linear')}.get(spec['init'])
     # ---- value
     weak('fields', 'sum-is-added', sv.has_field(*spec['coef'][-1]), 'the value does not depend on the coefficients')
@@ -754,6 +1224,33 @@ def weak_kernel(ctx, K, short, spec, vop, sop, consumer, hidden):
         ctx.check(ss.has_call(r'v1::Linear as evaluate::Evaluate>::evaluate'), R + '.used/Quadratic/includes-linear-ids', 'T-CARRY', fn, 'ids of the linear part are not reported', body.site())
 
 
+def shortcut_problems(K, pair, guards, term_loop, rec, main_sop):
+    """why the early exit `pair` (taken when a list is empty) does NOT return what the main exit returns after zero iterations"""
+    body = K.body; vx = K.vx; e, vop, sop = pair; why = []
+    lists = K.loop_lists(term_loop)
+    if not any(K.msg_path(vx.op(c.args[0])) is not None and any(K.msg_path(vx.op(c.args[0]))[0] == l for l in lists) for c in guards):
+        why.append('an early Ok-exit is not guarded by is_empty() of a list the term loop runs over')
+    acc_l, inits, ups = rec
+    if any(e in body.reach([bi]) for op, x, bi in ups): why.append('an early Ok-exit can be reached after terms have been added')
+    def summands(nodes):
+        out = []
+        for x in nodes:
+            for leaf in T.flatten(x, 'Add'):
+                r = recurrence(leaf, vx)
+                if r is not None and r[0] == acc_l: out += summands([i for i, bi in r[1]])       # the accumulator before the loop = its start value
+                elif peel(leaf) != ('const', '0f64'): out.append(repr(peel(leaf)))
+        return sorted(out)
+    if summands([K.inline_vecs(vx.op(vop))]) != summands([x for x, bi in inits]):
+        why.append('an early Ok-exit does not return the start value of the sum')
+    root = lambda o: T.access_path(body, o, transparent=T.TRANSPARENT_NOCLONE)[1]
+    def fresh(l):
+        ds = body.defs_of(l) if l is not None else []
+        return len(ds) == 1 and ds[0][0] == 'call' and bool(re.search(r'BTreeSet::<.*>::new$', T.strip_generics_tail(ds[0][2]['r'] or ds[0][2]['f'])))
+    if not (root(sop) == root(main_sop) or (fresh(root(sop)) and fresh(root(main_sop)))):
+        why.append('an early Ok-exit does not return the start value of the id set')
+    return why
+
+
 def init_check(ctx, K, short, kind, inits, Lp):
     """inits: the summands the sum starts from (definitions of the accumulator outside the loop + summands added at the exit)"""
     R = 'C01'; body = K.body; fn = body.name
@@ -776,7 +1273,7 @@ def init_check(ctx, K, short, kind, inits, Lp):
         for x, bi in entries:
             n = peel(x)
             if n == ('const', '0f64'):
-                if any(bi in body.reach([nn], stop={Lp[1]}) and bi not in body.reach([sm], stop={Lp[1]}) for sb, sm, nn in tests):
+                if any(bi in reach_v(body, [nn], stop={Lp[1]}) and bi not in reach_v(body, [sm], stop={Lp[1]}) for sb, sm, nn in tests):
                     none_ok = True
                     # an absent linear part is not an error
                     ctx.check(bool(reach_v(body, [bi]) & body.strict_ok_exits()), R + '.linear-none/ok', 'T-GUARD', fn, 'absent linear part leads to an error', body.site(bi))
@@ -784,7 +1281,7 @@ def init_check(ctx, K, short, kind, inits, Lp):
             if n[0] == 'proj' and n[1][0] == 'call' and n[1][1] == 'evaluate' and 'v1::Linear as evaluate::Evaluate' in n[1][2]:
                 ev = n[1]
                 if [f for a, f in n[2] if a == 'tuple'] == ['0'] and ('v1::Quadratic', 'linear') in T.expr_fields(ev[3][0]) and peel(ev[3][1]) == ('place', 2, []) \
-                        and any(ev[4] in body.reach([sm], stop={Lp[1]}) and ev[4] not in body.reach([nn], stop={Lp[1]}) for sb, sm, nn in tests):
+                        and any(ev[4] in reach_v(body, [sm], stop={Lp[1]}) and ev[4] not in reach_v(body, [nn], stop={Lp[1]}) for sb, sm, nn in tests):
                     some_ok = True; continue
             rest.append(x)
         init_ok = some_ok and none_ok and not rest
@@ -826,8 +1323,7 @@ def used_rules(ctx, K, short, spec, sop):
         for c, fs, chain in cands:
             w = K.every_iteration(chain, [c.bb])
             # the loops crossed must run over the message's own lists
-            for nb in chain:
-                if any(leaf[0] not in ('src', 'index') or (leaf[0] == 'src' and K.msg_path(leaf[1]) is None) for leaf in comp_leaves(K.comp_of(K.by_next[nb]))): w.append('derived collection')
+            for nb in chain: w += K.loop_problems(nb)
             if not w: why = None; got.append(p[-1][1]); break
             why = w
         if why: probs.append(('an id of %s can be skipped: %s' % (p[-1][1], '; '.join(why)), body.site(cands[0][0].bb)))
@@ -838,7 +1334,7 @@ def used_rules(ctx, K, short, spec, sop):
            [('id is inserted into another set', body.site(c.bb)) for c, fs, ch in stray if not any(same_path(s[1], fs) for s in sites)])
     decide(ctx, R + '.used/%s/every-id' % short, 'T-LOOPMUST', body, probs)
     if spec['init'] == 'linear-part':
-        s = ctx.S.backslice(body, [set_l])
+        s = K.S.backslice(body, [set_l])
         ctx.check(s.has_call(r'v1::Linear as evaluate::Evaluate>::evaluate'), R + '.used/Quadratic/includes-linear-ids', 'T-CARRY', fn, 'ids of the linear part are not reported', body.site())
 
 
@@ -849,6 +1345,7 @@ def oneof_rules(ctx):
     R = 'C01.oneof'
     body = ctx.method(R + '/anchor', 'v1::Function', 'evaluate', trait='Evaluate')
     if body is None: return
+    body = opened(ctx, body)
     en = ctx.F.adt('v1::function::Function')
     if en is None:
         ctx.lost(R, 'enum v1::function::Function'); return
@@ -863,12 +1360,25 @@ def oneof_rules(ctx):
     sb, some_t, none_t = tests[0]
     nr = T.reach_cp(body, [none_t]) - T.reach_cp(body, [some_t])
     # unset oneof => (0.0, empty set), no error
-    tuples = [(bi, st) for bi, st in body.stmts() if bi in nr and st['rv']['k'] == 'agg' and st['rv']['adt'] == 'tuple' and len(st['rv']['ops']) == 2]
+    # on dataflow: among the pairs an Ok-exit may return there is one whose value is the constant 0.0 *as defined on the None side only*
+    # and whose set is a fresh BTreeSet.  Covers a `None => (0.0, {})` arm, `let .. else { return Ok((0.0, {})) }`, and a default
+    # substituted for the missing case (`.unwrap_or(&Constant(0.0))`, `.map_or(Ok((0.0, {})), ..)`) that then takes the Constant arm.
+    # what the function returns: payloads of `Ok(x)` (x through copies / `?` / phi of the arms), whether the Ok is built at the exit or
+    # earlier (`map_or(Ok(..), ..)`), or a callee's Result returned as it is
+    payloads = []; direct = set()
+    for e, k, st in body.ret_assignments():
+        if k == 'callval': direct.add(e); continue
+        if k not in ('ok', 'val') or st['rv']['k'] not in ('agg', 'use') or st['rv']['ops'][0]['k'] not in ('copy', 'move'): continue
+        if k == 'ok': payloads += list(flat_alts(vx.op(st['rv']['ops'][0]), e)); continue
+        for n, bb in flat_alts(vx.op(st['rv']['ops'][0]), e):
+            if n[0] == 'agg' and n[1].endswith('Result::Ok') and len(n[2]) == 1: payloads += list(flat_alts(n[2][0], bb))
+            elif n[0] == 'call': direct.add(n[4])
     okn = False
-    for bi, st in tuples:
-        o0, o1 = st['rv']['ops']
-        s1 = T.expr(body, o1)
-        if o0['k'] == 'const' and o0['v'] == '0f64' and s1[0] == 'call' and s1[1] == 'new' and 'BTreeSet' in s1[2]: okn = True
+    for n, bb in payloads:
+        if n[0] == 'agg' and n[1] == 'tuple' and len(n[2]) == 2:
+            zero = any(x == ('const', '0f64') and b2 in nr for x, b2 in flat_alts(n[2][0], bb))
+            fresh = any(x[0] == 'call' and x[1] == 'new' and 'BTreeSet' in x[2] for x, b2 in flat_alts(n[2][1], bb))
+            if zero and fresh: okn = True
     ctx.check(okn and not (nr & body.err_exits()) and bool(T.reach_cp(body, [none_t]) & body.strict_ok_exits()), R + '/unset-is-zero', 'T-BRANCHFX', body.name,
               'an unset oneof does not evaluate to (0.0, {})', body.site())
     # one arm per variant: the switch on the discriminant of the oneof payload
@@ -891,18 +1401,7 @@ def oneof_rules(ctx):
     if sw is None: return
     bi, t = sw; m = {v: tg for v, tg in t['ts']}
     targets = {v['name']: m.get(v['discr'], t['else']) for v in en['variants']}
-    # what the Ok-exits return: `Ok(x)` with x resolved through copies / `?` / phi of the arms; or a callee's Result returned as it is
-    returned = []           # value expressions
-    direct = set()          # blocks of calls whose Result is the function's result
-    for e, k, st in body.ret_assignments():
-        if k == 'ok':
-            n = peel(vx.op(st['rv']['ops'][0]))
-            returned += [peel(x) for x in n[2]] if n[0] == 'phi' else [n]
-        elif k == 'callval': direct.add(e)
-        elif k == 'val':
-            n = peel(vx.op(st['rv']['ops'][0]))
-            for x in ([peel(y) for y in n[2]] if n[0] == 'phi' else [n]):
-                if x[0] == 'call': direct.add(x[4])
+    returned = [n for n, bb in payloads]
     for name, tg in targets.items():
         others = [x for n2, x in targets.items() if n2 != name]
         reg = T.reach_cp(body, [tg]) - set().union(*[T.reach_cp(body, [x]) for x in others if x != tg]) if others else T.reach_cp(body, [tg])
@@ -927,6 +1426,14 @@ def oneof_rules(ctx):
     arith_ops = [b2 for b2, st2 in body.stmts() if st2['rv']['k'] in ('bin', 'un') and st2['rv'].get('ty') == 'f64']
     arith_ops += [c.bb for c in body.calls if T.ARITH_CALL.match(c.name) or T.ASSIGN_CALL.match(c.name)]
     ctx.check(not arith_ops, R + '/no-arithmetic', 'T-BRANCHFX', body.name, 'the dispatcher modifies the value', body.site(arith_ops[0]) if arith_ops else body.site())
+
+
+def flat_alts(n, bb):
+    """alternatives of a value (phi flattened) with the block that defines each"""
+    n = peel(n)
+    if n[0] == 'phi':
+        for x, b in zip(n[2], n[3]): yield from flat_alts(x, b)
+    else: yield n, bb
 
 
 def rebuilt_pair(x, bb):
